@@ -231,7 +231,7 @@ wait:
 }
 
 // StallSeconds: how long one world may run before the watchdog gives up on it.
-var StallSeconds = 20
+var StallSeconds = 30
 
 // sampleOf is a compact, readable rendering of a scenario for the evidence file.
 func sampleOf(sc *Scenario) map[string]interface{} {
